@@ -5,6 +5,7 @@
 -/
 import RaftWal.Proofs.WalInv2
 import RaftWal.Proofs.CrashCorollaries
+import RaftWal.Proofs.ConcReclaim
 namespace RaftWal.C13
 open RaftWal
 
@@ -51,5 +52,27 @@ theorem recovered_dir_exact_any_crash (d : Crash.Disk) (hq : Crash.QuiescentS d)
     (∀ f ∈ d'.files, ∃ s ∈ d'.md.segs, s.id = f.id) ∧ (∀ s ∈ d'.md.segs, (d'.file? s.id).isSome) ∧
     (∀ s ∈ d'.md.segs, s.id < d'.md.nextID) :=
   Crash.recovered_dir_exact d hq op hok k c d1 d' hr ho
+
+/-! ## under concurrency (Model/Conc.lean, every schedule): reclaimed exactly when the last holder lets go -/
+
+/-- a replaced state that nobody holds any more has run its finalizer -/
+theorem reclaimed_when_released (files wants : List Conc.FileId) (muts : List Conc.Mutation) (hwf : Conc.InitWF files muts)
+    (s : Conc.Sys) (h : Conc.Reachable files wants muts s) (sid : Nat) (hs : sid < s.objs.length)
+    (hfin : (s.obj sid).fin ≠ .unset) (h0 : (s.obj sid).refCount = 0) : (s.obj sid).fin = .taken :=
+  Conc.reclaimed_when_released files wants muts hwf s h sid hs hfin h0
+
+/-- … and has then closed (for truncations: deleted) every file it referenced and its successor does not -/
+theorem dropped_files_closed (files wants : List Conc.FileId) (muts : List Conc.Mutation) (hwf : Conc.InitWF files muts)
+    (s : Conc.Sys) (h : Conc.Reachable files wants muts s) (sid : Nat) (hs : sid + 1 < s.objs.length)
+    (hfin : (s.obj sid).fin = .taken) :
+    ∀ f ∈ (s.obj sid).files, f ∉ (s.obj (sid + 1)).files → s.isOpen f = false :=
+  Conc.dropped_files_closed files wants muts hwf s h sid hs hfin
+
+/-- nothing is closed early: only files a replaced, fully released state dropped; the current state has no finalizer -/
+theorem closed_only_by_finalizer (files wants : List Conc.FileId) (muts : List Conc.Mutation) (hwf : Conc.InitWF files muts)
+    (s : Conc.Sys) (h : Conc.Reachable files wants muts s) (f : Conc.FileId) (hc : s.isOpen f = false) :
+    (∃ sid, sid + 1 < s.objs.length ∧ (s.obj sid).fin = .taken ∧ f ∈ (s.obj sid).files ∧ f ∉ (s.obj (sid + 1)).files) ∧
+    (s.obj s.cur).fin = .unset :=
+  ⟨Conc.closed_only_by_finalizer files wants muts hwf s h f hc, Conc.current_has_no_finalizer files wants muts hwf s h⟩
 
 end RaftWal.C13
